@@ -105,6 +105,8 @@ def call_value(ex, st, f, pos, named, stars, sargs, node, ov=None):
         if isinstance(f.obj, type):
             k = C.CONTRACTS.get(f'new:{f.obj.__name__}')
             if k is not None: return apply_contract(ex, st, k, None, pos, named, stars, sargs, node)
+        r = inline_call(ex, st, f.obj, None, pos, named, stars, sargs, node)
+        if r is not None: return r
         raise Unsupported(f'no contract for call of {f.obj!r} (line {node.lineno} in {ex.spec.qual})')
     if isinstance(f, PClosure):
         k = C.CONTRACTS.get(f.qual.split(':')[-1]) or C.CONTRACTS.get(f.qual) or next((c for c in C.CONTRACTS.values() if c.qual == f.qual), None)
@@ -115,6 +117,56 @@ def call_value(ex, st, f, pos, named, stars, sargs, node, ov=None):
     h = ex.spec.calls.get('*value*')
     if h is not None: return h(ex, st, f, pos, named, stars, sargs, node)
     raise Unsupported(f'call of a value {f!r} (line {node.lineno} in {ex.spec.qual}): no interface contract')
+
+
+_INLINE = {}
+_inline_depth = [0]
+
+
+def inline_call(ex, st, fobj, recv, pos, named, stars, sargs, node):
+    """A call of a module-level edzed function that has no contract (typically a helper introduced by a refactoring):
+    its current body is executed in place, in the caller's proof.  Only straight-line helpers are taken (no loop, await,
+    yield, nested definition, global statement); anything else stays 'no contract' (exit 3).  The inlined text is re-read
+    from the working tree like every other function; the fact is recorded as an assumption-free note in evidence."""
+    import types
+    fobj = getattr(fobj, '__func__', fobj)
+    if not isinstance(fobj, types.FunctionType): return None
+    modname, qn = getattr(fobj, '__module__', ''), getattr(fobj, '__qualname__', '')
+    if not modname.startswith('edzed') or '<' in qn or '.' in qn: return None
+    q = f'{modname}:{qn}'
+    k = _INLINE.get(q)
+    if k is None:
+        k = C.Contract('inline:' + q, lambda c: None, qual=q)
+        try: k.load()
+        except Unsupported: return None
+        _INLINE[q] = k
+    banned = (ast.For, ast.While, ast.Await, ast.Yield, ast.YieldFrom, ast.AsyncFor, ast.AsyncWith, ast.Global, ast.Nonlocal, ast.ClassDef, ast.With)
+    for n in ast.walk(k.node):
+        if isinstance(n, banned) or (isinstance(n, (ast.FunctionDef, ast.AsyncFunctionDef)) and n is not k.node): return None
+    if isinstance(k.node, ast.AsyncFunctionDef) or _inline_depth[0] >= 3: return None
+    ex.spec.note_assumption(f'{q} has no contract of its own: its body is executed in place at the call in {ex.spec.qual} (inlined, re-read from the working tree)')
+    outs = []
+    saved_mod = ex.spec.module
+    _inline_depth[0] += 1
+    try:
+        for s1, b in bind_args(ex, st, k, recv, pos, named, stars, sargs, node):
+            if isinstance(b, Raise): outs.append((s1, b)); continue
+            s1 = s1.copy(); caller_env = s1.env; s1.env = dict(b)
+            ex.spec.module = k.module
+            try: flows = ex.run_block(k.node.body, s1)
+            finally: ex.spec.module = saved_mod
+            for s2, fl in flows:
+                s2.env = dict(caller_env)
+                if fl is NEXT: outs.append((s2, P_NONE))
+                elif fl[0] == 'return': outs.append((s2, fl[1]))
+                elif fl[0] == 'raise':
+                    exc = fl[1]
+                    if isinstance(exc, PExc) and exc.where in (None, 'raise', 'call'): exc = PExc(exc.cls, exc.val, exc.cause, 'callee')
+                    outs.append((s2, Raise(exc)))
+                else: raise Unsupported(f'{q}: {fl[0]} at the top level of an inlined function')
+    finally:
+        _inline_depth[0] -= 1
+    return outs
 
 
 def contract_by_qual(obj):
